@@ -9,6 +9,15 @@
 //!                             instrumented Lean Script execution performs successfully;
 //!   * `C interp`              the Lean big-step model of the interpreter (`Model/Interp.lean`)
 //!                             returns the same verdict / error class / ordered constraints.
+//!   * `J interp-sound-m` / `J constraints-m` / `C interp-m`   the same three for the other two
+//!                             entry points: `iter_assume_sigs` (mode `assume`: every PARSEABLE
+//!                             signature counts as valid, on both sides) and `iter_custom` with a
+//!                             custom verifier (mode `ban:<pk>`: real verification minus one key);
+//!   * `J policy` / `J policy-key`  the reported constraints satisfy the spending condition of the
+//!                             executed miniscript (`Spec/MsSem.sem`) / name exactly the output's key;
+//!   * `J inferred`            `inferred_descriptor()` re-encodes (Lean encoder) to the executed
+//!                             script and its output script (`Spec/Outputs`) is the spent one;
+//!   * `J nopanic interp-adv`  arbitrary (scriptPubKey, scriptSig, witness) shapes never panic.
 //! Which (pubkey, signature) pairs verify is established by this file independently of the
 //! code under test (digest re-derived from the produced data, BIP341 rule for 65-byte
 //! signatures applied by hand) and sent to the Lean side as oracle tables.
@@ -107,8 +116,28 @@ fn canon_constraint(c: &SatisfiedConstraint) -> String {
 
 pub struct Run { pub verdict: String, pub cs: Vec<String>, pub inner_script: bool }
 
-/// `from_txdata` + `iter` with real signature verification
-pub fn run_interp(tx: &Transaction, prevout: &TxOut, ss: &ScriptBuf, wit: &[Vec<u8>]) -> Run {
+/// which entry point / verifier drives the iterator
+#[derive(Clone, Debug, PartialEq)]
+pub enum Mode {
+    /// `Interpreter::iter`: real signature verification
+    Real,
+    /// `Interpreter::iter_assume_sigs`
+    Assume,
+    /// `Interpreter::iter_custom` with "real verification, but never for this key"
+    Ban(Vec<u8>),
+}
+impl Mode {
+    fn token(&self) -> String {
+        match self { Mode::Real => "real".into(), Mode::Assume => "assume".into(), Mode::Ban(pk) => format!("ban:{}", hex(pk)) }
+    }
+}
+
+fn keysig_pk(k: &KeySigPair) -> Vec<u8> {
+    match k { KeySigPair::Ecdsa(pk, _) => pk.to_bytes(), KeySigPair::Schnorr(pk, _) => pk.serialize().to_vec() }
+}
+
+/// `from_txdata` + the iterator of the chosen entry point
+pub fn run_interp_mode(tx: &Transaction, prevout: &TxOut, ss: &ScriptBuf, wit: &[Vec<u8>], mode: &Mode) -> Run {
     let witness = Witness::from_slice(wit);
     let r = std::panic::catch_unwind(std::panic::AssertUnwindSafe(|| {
         let interp = match Interpreter::from_txdata(&prevout.script_pubkey, ss, &witness, tx.input[0].sequence, tx.lock_time) {
@@ -120,8 +149,16 @@ pub fn run_interp(tx: &Transaction, prevout: &TxOut, ss: &ScriptBuf, wit: &[Vec<
             || interp.inferred_descriptor_string().starts_with("sh(wpkh")
             || interp.inferred_descriptor_string().starts_with("rawtr"));
         let prevouts = Prevouts::All(std::slice::from_ref(prevout));
+        let iter = match mode {
+            Mode::Real => interp.iter(secp(), tx, 0, &prevouts),
+            Mode::Assume => interp.iter_assume_sigs(),
+            Mode::Ban(pk) => {
+                let (i, p, b) = (&interp, &prevouts, pk.clone());
+                interp.iter_custom(Box::new(move |ks: &KeySigPair| keysig_pk(ks) != b && i.verify_sig(secp(), tx, 0, p, ks)))
+            }
+        };
         let mut cs = vec![];
-        for r in interp.iter(secp(), tx, 0, &prevouts) {
+        for r in iter {
             match r {
                 Ok(c) => cs.push(canon_constraint(&c)),
                 Err(e) => return Run { verdict: format!("reject:{}", err_class(&e)), cs, inner_script },
@@ -130,6 +167,10 @@ pub fn run_interp(tx: &Transaction, prevout: &TxOut, ss: &ScriptBuf, wit: &[Vec<
         Run { verdict: "accept".into(), cs, inner_script }
     }));
     r.unwrap_or(Run { verdict: "PANIC".into(), cs: vec![], inner_script: false })
+}
+
+pub fn run_interp(tx: &Transaction, prevout: &TxOut, ss: &ScriptBuf, wit: &[Vec<u8>]) -> Run {
+    run_interp_mode(tx, prevout, ss, wit, &Mode::Real)
 }
 
 /* ------------------------------------------------------------------ independent validity oracle */
@@ -152,6 +193,17 @@ pub fn register_all(out: &mut Out, tx: &Transaction, prevout: &TxOut, ss: &Scrip
     let prefixes: Vec<Vec<u8>> = items.iter().chain(wit.iter()).filter(|e| e.len() == 65 && e[64] == 0).map(|e| e[..64].to_vec()).collect();
     let mut elems: Vec<&Vec<u8>> = items.iter().chain(wit.iter()).chain(prefixes.iter()).collect();
     elems.sort(); elems.dedup();
+    // what `iter_assume_sigs` is entitled to treat as a signature: an element of the right SHAPE
+    // (strict DER + standard sighash byte, resp. the BIP341 shapes), whatever it signs
+    for e in &elems {
+        let shape = if spk.is_p2tr() {
+            e.len() == 64 || (e.len() == 65 && STD_SIGHASH.contains(&e[64]))
+        } else {
+            e.len() >= 9 && e.len() <= 73 && STD_SIGHASH.contains(&e[e.len() - 1])
+                && secp256k1::ecdsa::Signature::from_der(&e[..e.len() - 1]).is_ok()
+        };
+        if shape { out.line(&format!("D sig - {}", hex(e)), "ok"); }
+    }
     let mut cache = SighashCache::new(tx);
     let mut inner = spk.clone();
     if spk.is_p2sh() { if let Some(r) = last_push(ss) { inner = ScriptBuf::from_bytes(r); } }
@@ -290,6 +342,8 @@ pub struct Case<'a> {
     pub sane: bool,
     pub has_after: bool,
     pub has_older: bool,
+    /// serialised key of a pkh / wpkh / sh-wpkh descriptor
+    pub single_key: Option<Vec<u8>>,
 }
 
 fn pk_bytes(ids: &[u32]) -> Vec<Vec<u8>> {
@@ -339,7 +393,43 @@ fn inner_stack(spk: &ScriptBuf, ss: &ScriptBuf, wit: &[Vec<u8>]) -> Option<Vec<V
 fn dom_of(ctx: CtxK) -> u32 { match ctx { CtxK::Tap => DOM_TAPSCRIPT, CtxK::Segwitv0 => DOM_SEGWITV0, _ => DOM_LEGACY } }
 
 /// emit all judged lines for one (tx, scriptSig, witness)
+const X_ASSUME: u8 = 1;
+const X_BAN: u8 = 2;
+const X_INFERRED: u8 = 4;
+
 fn judge(out: &mut Out, case: &Case, tx: &Transaction, prevout: &TxOut, ss: &ScriptBuf, wit: &[Vec<u8>], own: bool, tag: &str, leaf: Option<&Node>) -> bool {
+    judge_x(out, case, tx, prevout, ss, wit, own, tag, leaf, 0)
+}
+
+/// lines of one entry point other than `iter`
+fn judge_mode(out: &mut Out, case: &Case, tx: &Transaction, prevout: &TxOut, ss: &ScriptBuf, wit: &[Vec<u8>], head: &str, info: &str, node: Option<&Node>, mode: &Mode, own: bool) {
+    let run = run_interp_mode(tx, prevout, ss, wit, mode);
+    let m = mode.token();
+    if run.verdict == "PANIC" {
+        out.line(&format!("J nopanic interpreter-{} {} | {} PANIC", m, head, info), "ok");
+        return;
+    }
+    // valid signatures have the shape of signatures: what `iter` accepts, `iter_assume_sigs` accepts
+    if own && *mode == Mode::Assume {
+        out.line(&format!("J interp-accepts-own-m {} {} {} | {}", m, head, run.verdict, info), "ok");
+    }
+    out.line(&format!("J interp-sound-m {} {} {} | {}", m, head, run.verdict, info), "ok");
+    out.count(&format!("interp[{}] verdict: {}", m.split(':').next().unwrap(), run.verdict.split(':').take(2).collect::<Vec<_>>().join(":")));
+    let cs = if run.cs.is_empty() { "-".to_string() } else { run.cs.join(",") };
+    if run.verdict == "accept" {
+        out.line(&format!("J constraints-m {} {} {} | {}", m, head, cs, info), "ok");
+    }
+    if let (true, Some(n)) = (run.inner_script, node) {
+        if let Some(st) = inner_stack(&prevout.script_pubkey, ss, wit) {
+            let ctx = case.ctx;
+            let ans = if run.verdict == "accept" { format!("accept {}", cs) } else { run.verdict.clone() };
+            out.line(&format!("C interp-m {} {} {} {} {} {} {} {}", m, ctx.name(), dom_of(ctx), tx.version.0, tx.lock_time.to_consensus_u32(),
+                tx.input[0].sequence.to_consensus_u32(), interp_view(n, ctx == CtxK::Tap).wire(), desc::wit_wire(&st)), &ans);
+        }
+    }
+}
+
+fn judge_x(out: &mut Out, case: &Case, tx: &Transaction, prevout: &TxOut, ss: &ScriptBuf, wit: &[Vec<u8>], own: bool, tag: &str, leaf: Option<&Node>, extras: u8) -> bool {
     let run = run_interp(tx, prevout, ss, wit);
     let pks = pk_bytes(&case.key_ids);
     register_all(out, tx, prevout, ss, wit, &pks);
@@ -375,7 +465,28 @@ fn judge(out: &mut Out, case: &Case, tx: &Transaction, prevout: &TxOut, ss: &Scr
     if run.verdict == "accept" {
         let cs = if run.cs.is_empty() { "-".to_string() } else { run.cs.join(",") };
         out.line(&format!("J constraints {} {} | {}", head, cs, info), "ok");
+        // the reported constraints satisfy the spending condition of what was executed
+        let is_tr = spk.is_p2tr();
+        match (leaf.or(case.node), run.inner_script) {
+            (Some(n), true) => out.line(&format!("J policy {} {} {} | {}", case.ctx.name(), n.wire(), cs, info), "ok"),
+            (None, false) if is_tr && wit.len() == 1 =>
+                out.line(&format!("J policy-key {} {} | {}", hex(&spk.as_bytes()[2..34]), cs, info), "ok"),
+            (None, false) if !is_tr => if let Some(k) = &case.single_key {
+                out.line(&format!("J policy-key {} {} | {}", hex(k), cs, info), "ok")
+            },
+            _ => out.count("c13 policy: not judged (unknown leaf)"),
+        }
     }
+    // the other entry points
+    let node_m = leaf.or(case.node);
+    if extras & X_ASSUME != 0 { judge_mode(out, case, tx, prevout, ss, wit, &head, &info, node_m, &Mode::Assume, own && run.verdict == "accept"); }
+    if extras & X_BAN != 0 {
+        if let Some(id) = case.key_ids.first() {
+            let pk = if spk.is_p2tr() { ast::xonly_key(*id).serialize().to_vec() } else { ast::full_key(*id).to_bytes() };
+            judge_mode(out, case, tx, prevout, ss, wit, &head, &info, node_m, &Mode::Ban(pk), false);
+        }
+    }
+    if extras & X_INFERRED != 0 { judge_inferred(out, case, tx, prevout, ss, wit, &script_elem, &info); }
     // model correspondence (script outputs only)
     let node = leaf.or(case.node);
     if let (true, Some(n)) = (run.inner_script, node) {
@@ -389,6 +500,177 @@ fn judge(out: &mut Out, case: &Case, tx: &Transaction, prevout: &TxOut, ss: &Scr
         }
     }
     run.verdict == "accept"
+}
+
+/* ------------------------------------------------------------------ inferred descriptor */
+
+fn node_of_ms<Ctx: miniscript::ScriptContext>(ms: &miniscript::Miniscript<PublicKey, Ctx>) -> Option<Node> {
+    use miniscript::Terminal as T;
+    let b = |x: &std::sync::Arc<miniscript::Miniscript<PublicKey, Ctx>>| -> Option<Box<Node>> { Some(Box::new(node_of_ms(x)?)) };
+    let kid = |k: &PublicKey| key_id_full(k);
+    let kids = |t: &miniscript::Threshold<PublicKey, 20>| -> Option<Vec<u32>> { t.iter().map(|k| key_id_full(k)).collect() };
+    Some(match &ms.node {
+        T::True => Node::True, T::False => Node::False,
+        T::PkK(k) => Node::PkK(kid(k)?), T::PkH(k) => Node::PkH(kid(k)?),
+        T::RawPkH(h) => Node::RawPkH((0..10).chain(100..104).chain(200..210).find(|id| ast::raw_pkh(*id) == *h)?),
+        T::After(n) => Node::After(n.to_consensus_u32()), T::Older(n) => Node::Older(n.to_consensus_u32()),
+        T::Sha256(h) => Node::Hash(ast::HK::Sha256, crate::msops::hash_id(ast::HK::Sha256, h.as_byte_array())?),
+        T::Hash256(h) => Node::Hash(ast::HK::Hash256, crate::msops::hash_id(ast::HK::Hash256, h.as_byte_array())?),
+        T::Ripemd160(h) => Node::Hash(ast::HK::Ripemd160, crate::msops::hash_id(ast::HK::Ripemd160, h.as_byte_array())?),
+        T::Hash160(h) => Node::Hash(ast::HK::Hash160, crate::msops::hash_id(ast::HK::Hash160, h.as_byte_array())?),
+        T::Alt(x) => Node::Alt(b(x)?), T::Swap(x) => Node::Swap(b(x)?), T::Check(x) => Node::Check(b(x)?),
+        T::DupIf(x) => Node::DupIf(b(x)?), T::Verify(x) => Node::Verify(b(x)?), T::NonZero(x) => Node::NonZero(b(x)?),
+        T::ZeroNotEqual(x) => Node::ZeroNotEqual(b(x)?),
+        T::AndV(x, y) => Node::AndV(b(x)?, b(y)?), T::AndB(x, y) => Node::AndB(b(x)?, b(y)?),
+        T::AndOr(x, y, z) => Node::AndOr(b(x)?, b(y)?, b(z)?),
+        T::OrB(x, y) => Node::OrB(b(x)?, b(y)?), T::OrD(x, y) => Node::OrD(b(x)?, b(y)?),
+        T::OrC(x, y) => Node::OrC(b(x)?, b(y)?), T::OrI(x, y) => Node::OrI(b(x)?, b(y)?),
+        T::Thresh(t) => { let mut v = vec![]; for x in t.iter() { v.push(node_of_ms(x)?); } Node::Thresh(t.k(), v) }
+        T::Multi(t) => Node::Multi(t.k(), kids(t)?),
+        T::SortedMulti(t) => Node::SortedMulti(t.k(), kids(t)?),
+        _ => return None,
+    })
+}
+
+/// `Interpreter::inferred_descriptor`: emitted for the judge as (output kind, miniscript AST or
+/// key) - the Lean side re-encodes the AST with ITS encoder and rebuilds the scriptPubKey with
+/// `Spec/Outputs`; both must be what was actually spent / executed
+fn judge_inferred(out: &mut Out, case: &Case, tx: &Transaction, prevout: &TxOut, ss: &ScriptBuf, wit: &[Vec<u8>], script_elem: &Option<Vec<u8>>, info: &str) {
+    use miniscript::descriptor::ShInner;
+    let witness = Witness::from_slice(wit);
+    let spk = &prevout.script_pubkey;
+    let r = std::panic::catch_unwind(std::panic::AssertUnwindSafe(|| {
+        let interp = Interpreter::from_txdata(spk, ss, &witness, tx.input[0].sequence, tx.lock_time).ok()?;
+        Some((interp.inferred_descriptor(), interp.inferred_descriptor_string()))
+    }));
+    let (res, text) = match r {
+        Err(_) => { out.line(&format!("J nopanic inferred_descriptor {} | {} PANIC", hex(spk.as_bytes()), info), "ok"); return; }
+        Ok(None) => return,
+        Ok(Some(x)) => x,
+    };
+    let head = format!("{} {}", hex(spk.as_bytes()), script_elem.as_ref().map(|e| hex(e)).unwrap_or("-".into()));
+    let d = match res {
+        Ok(d) => d,
+        Err(_) => {
+            // from_str applies the sanity rules: only a sane, non-taproot spend must be inferable
+            if case.sane && !spk.is_p2tr() { out.line(&format!("J inferred {} none - | {} {}", head, text, info), "ok"); }
+            else { out.count("c13 inferred: none (insane or taproot)"); }
+            return;
+        }
+    };
+    let item: Option<(&str, String)> = match &d {
+        Descriptor::Bare(b) => node_of_ms(b.as_inner()).map(|n| ("bare", n.wire())),
+        Descriptor::Pkh(p) => Some(("pkh", hex(&p.as_inner().to_bytes()))),
+        Descriptor::Wpkh(p) => Some(("wpkh", hex(&p.as_inner().to_bytes()))),
+        Descriptor::Wsh(w) => node_of_ms(w.as_inner()).map(|n| ("wsh", n.wire())),
+        Descriptor::Sh(sh) => match sh.as_inner() {
+            ShInner::Ms(ms) => node_of_ms(ms).map(|n| ("sh", n.wire())),
+            ShInner::Wpkh(p) => Some(("shwpkh", hex(&p.as_inner().to_bytes()))),
+            ShInner::Wsh(w) => node_of_ms(w.as_inner()).map(|n| ("shwsh", n.wire())),
+        },
+        Descriptor::Tr(_) => None,
+    };
+    match item {
+        Some((kind, body)) => out.line(&format!("J inferred {} {} {} | {} {}", head, kind, body, text, info), "ok"),
+        None => out.line(&format!("J inferred {} unreadable - | {} {}", head, text, info), "ok"),
+    }
+}
+
+/* ------------------------------------------------------------------ adversarial shapes (no panic) */
+
+fn rnd_bytes(rng: &mut Rng, n: usize) -> Vec<u8> { (0..n).map(|_| rng.next() as u8).collect() }
+
+fn adv_item(rng: &mut Rng) -> Vec<u8> {
+    let lens = [0usize, 1, 1, 2, 20, 32, 33, 64, 65, 71, 72, 73, 100, 521];
+    let n = lens[rng.below(lens.len())];
+    match rng.below(6) {
+        0 => vec![1],
+        1 => ast::full_key(rng.below(4) as u32).to_bytes(),
+        2 => { let mut v = vec![0x30, 0x44, 0x02, 0x20]; v.extend(rnd_bytes(rng, 32)); v.extend([0x02, 0x20]); v.extend(rnd_bytes(rng, 32)); v.push(1); v }
+        3 => ast::preimage(rng.below(4) as u32).to_vec(),
+        _ => rnd_bytes(rng, n),
+    }
+}
+
+/// arbitrary (scriptPubKey, scriptSig, witness): standard and non-standard programs, garbage redeem /
+/// witness scripts, control blocks of every length 0..=100, annexes, non-miniscript scripts
+fn adversarial(out: &mut Out, rng: &mut Rng, n: usize) {
+    let some_script = |rng: &mut Rng| -> Vec<u8> {
+        match rng.below(5) {
+            0 => ast::to_ms::<PublicKey, miniscript::Segwitv0>(&Node::Check(Box::new(Node::PkK(rng.below(3) as u32)))).unwrap().encode().into_bytes(),
+            1 => ast::to_ms::<PublicKey, miniscript::Segwitv0>(&Node::Multi(1, vec![0, 1])).unwrap().encode().into_bytes(),
+            2 => vec![0x51],
+            3 => { let l = rng.below(40); rnd_bytes(rng, l) }                       // not a script / not a miniscript
+            _ => { let mut v = vec![0x63, 0x51, 0x67]; let l = rng.below(6); v.extend(rnd_bytes(rng, l)); v }  // unbalanced IF
+        }
+    };
+    for i in 0..n {
+        let mut wit: Vec<Vec<u8>> = (0..rng.below(6)).map(|_| adv_item(rng)).collect();
+        let mut ss_items_: Vec<Vec<u8>> = (0..rng.below(4)).map(|_| adv_item(rng)).collect();
+        let script = some_script(rng);
+        let spk: Vec<u8> = match rng.below(12) {
+            0 => { let mut v = vec![33]; v.extend(if rng.coin() { ast::full_key(0).to_bytes() } else { rnd_bytes(rng, 33) }); v.push(0xac); v }
+            1 => { let mut v = vec![0x76, 0xa9, 0x14]; v.extend(if rng.coin() { ast::raw_pkh(0).to_byte_array().to_vec() } else { rnd_bytes(rng, 20) }); v.extend([0x88, 0xac]); v }
+            2 => { // p2sh of a (garbage) redeem script, revealed in the scriptSig
+                ss_items_.push(script.clone());
+                let h = miniscript::bitcoin::hashes::hash160::Hash::hash(&script);
+                let mut v = vec![0xa9, 0x14]; v.extend(h.to_byte_array()); v.push(0x87); v }
+            3 => { // p2wsh of a (garbage) witness script
+                wit.push(script.clone());
+                let h = miniscript::bitcoin::hashes::sha256::Hash::hash(&script);
+                let mut v = vec![0x00, 0x20]; v.extend(h.to_byte_array()); v }
+            4 => { let l = [2usize, 19, 20, 21, 31, 32, 33, 40][rng.below(8)]; let mut v = vec![0x00, l as u8]; v.extend(rnd_bytes(rng, l)); v }   // v0, any length
+            5 | 6 => { // v1: key path, script path with a control block of every length, annex
+                let key = if rng.coin() { ast::xonly_key(rng.below(3) as u32).serialize().to_vec() } else { rnd_bytes(rng, 32) };
+                if rng.below(3) != 0 {
+                    wit.push(script.clone());
+                    let l = i % 101;
+                    let mut cb = rnd_bytes(rng, l);
+                    if l > 0 { cb[0] = [0xc0u8, 0xc1, 0x50, 0xc2, 0x00][rng.below(5)]; }
+                    if l >= 33 && rng.coin() { cb[1..33].copy_from_slice(&ast::xonly_key(3).serialize()); }
+                    wit.push(cb);
+                }
+                if rng.below(4) == 0 { let l = rng.below(5); let mut a = vec![0x50]; a.extend(rnd_bytes(rng, l)); wit.push(a); }
+                let mut v = vec![0x51, 0x20]; v.extend(key); v }
+            7 => { let l = rng.below(41).max(2); let mut v = vec![0x50 + 1 + rng.below(16) as u8, l as u8]; v.extend(rnd_bytes(rng, l)); v }  // other witness versions
+            8 => script.clone(),                          // bare: miniscript or garbage
+            9 => vec![],
+            10 => { let l = rng.below(60); rnd_bytes(rng, l) }
+            _ => { // nested segwit with garbage
+                wit.push(script.clone());
+                let h = miniscript::bitcoin::hashes::sha256::Hash::hash(&script);
+                let mut r = vec![0x00, 0x20]; r.extend(h.to_byte_array());
+                ss_items_.clear(); ss_items_.push(r.clone());
+                let hh = miniscript::bitcoin::hashes::hash160::Hash::hash(&r);
+                let mut v = vec![0xa9, 0x14]; v.extend(hh.to_byte_array()); v.push(0x87); v }
+        };
+        // legacy outputs mostly without a witness, native segwit mostly without a scriptSig
+        let sb = ScriptBuf::from_bytes(spk.clone());
+        if !(sb.is_p2wsh() || sb.is_p2wpkh() || sb.is_p2tr() || sb.is_p2sh()) && rng.below(4) != 0 { wit.clear(); }
+        if (sb.is_p2wsh() || sb.is_p2wpkh() || sb.is_p2tr()) && rng.below(4) != 0 { ss_items_.clear(); }
+        let ss = if rng.below(8) == 0 { let l = rng.below(30); ScriptBuf::from_bytes(rnd_bytes(rng, l)) } else { ss_build(&ss_items_) };
+        let tx = make_tx(if rng.below(4) == 0 { 1 } else { 2 }, rng.next() as u32, rng.next() as u32);
+        let prevout = TxOut { value: Amount::from_sat(VALUE), script_pubkey: ScriptBuf::from_bytes(spk) };
+        let mut verdicts = vec![];
+        let mut panicked = false;
+        for mode in [Mode::Real, Mode::Assume] {
+            let r = run_interp_mode(&tx, &prevout, &ss, &wit, &mode);
+            if r.verdict == "PANIC" { panicked = true; }
+            verdicts.push(r.verdict);
+        }
+        let witness = Witness::from_slice(&wit);
+        let r = std::panic::catch_unwind(std::panic::AssertUnwindSafe(|| {
+            if let Ok(interp) = Interpreter::from_txdata(&prevout.script_pubkey, &ss, &witness, tx.input[0].sequence, tx.lock_time) {
+                let _ = interp.inferred_descriptor_string();
+                let _ = interp.inferred_descriptor();
+                let _ = (interp.is_legacy(), interp.is_segwit_v0(), interp.is_taproot_v1_key_spend(), interp.is_taproot_v1_script_spend(), interp.sig_type());
+            }
+        }));
+        if r.is_err() { panicked = true; }
+        out.count(&format!("c13 adv: {}", verdicts[0].split(':').take(3).collect::<Vec<_>>().join(":")));
+        out.line(&format!("J nopanic interp-adv {} {} {} {}", hex(prevout.script_pubkey.as_bytes()), hex(ss.as_bytes()), desc::wit_wire(&wit),
+            if panicked { "PANIC" } else { "OK" }), "ok");
+    }
 }
 
 fn make_tx(ver: i32, lt: u32, sq: u32) -> Transaction {
@@ -413,11 +695,19 @@ fn leaf_of<'a>(leaves: &'a [Node], wit: &[Vec<u8>]) -> Option<&'a Node> {
     leaves.iter().find(|n| ast::to_ms::<PublicKey, miniscript::Tap>(n).map(|m| m.encode().as_bytes() == &sb[..]).unwrap_or(false))
 }
 
-fn satisfy(desc_: &Descriptor<PublicKey>, sat: &TxSat, mall: bool) -> Option<(Vec<Vec<u8>>, ScriptBuf)> {
+fn satisfy(out: &mut Out, desc_: &Descriptor<PublicKey>, sat: &TxSat, mall: bool, info: &str) -> Option<(Vec<Vec<u8>>, ScriptBuf)> {
     let res = std::panic::catch_unwind(std::panic::AssertUnwindSafe(|| {
         if mall { desc_.get_satisfaction_mall(sat) } else { desc_.get_satisfaction(sat) }
     }));
-    match res { Ok(Ok(x)) => Some(x), _ => None }
+    match res {
+        Ok(Ok(x)) => Some(x),
+        Ok(Err(_)) => None,
+        Err(_) => {
+            out.line(&format!("J nopanic get_satisfaction{} {} {} {} {} PANIC", if mall { "_mall" } else { "" }, desc_,
+                sat.tx.version.0, sat.tx.lock_time.to_consensus_u32(), info), "ok");
+            None
+        }
+    }
 }
 
 /// all work for one descriptor x assets x mode
@@ -429,13 +719,13 @@ fn do_case(out: &mut Out, rng: &mut Rng, case: &Case, leaves: &[Node], assets: &
     let mode = if mall { "mall" } else { "nonmall" };
     // ---- base transaction
     let sat = tx_sat(d, assets, make_tx(2, lt, sq));
-    let (wit, ss) = match satisfy(d, &sat, mall) { Some(x) => x, None => { out.count("c13 sat: none"); return; } };
+    let (wit, ss) = match satisfy(out, d, &sat, mall, &assets.wire()) { Some(x) => x, None => { out.count("c13 sat: none"); return; } };
     if mall { if let Some(p) = prev { if p.0 == wit && p.1 == ss { out.count("c13 sat: mall = nonmall (skipped)"); return; } } }
     if !mall { *prev = Some((wit.clone(), ss.clone())); }
     out.count(&format!("c13 sat: {:?}{}", d.desc_type(), if sane { " sane" } else { " insane" }));
     let leaf = leaf_of(leaves, &wit);
     let tagb = format!("{} {} base", mode, assets.wire());
-    judge(out, case, &sat.tx, &sat.prevout, &ss, &wit, sane, &tagb, leaf);
+    judge_x(out, case, &sat.tx, &sat.prevout, &ss, &wit, sane, &tagb, leaf, X_ASSUME | X_BAN | X_INFERRED);
 
     // ---- lock-time / sequence / version variants: re-sign over the changed transaction
     let (mut afters, mut olders) = (vec![], vec![]);
@@ -461,7 +751,7 @@ fn do_case(out: &mut Out, rng: &mut Rng, case: &Case, leaves: &[Node], assets: &
     if mall || !special { variants.retain(|(v, _, _)| *v == 2); }
     for (ver, l, s) in variants {
         let sat2 = tx_sat(d, assets, make_tx(ver, l, s));
-        if let Some((w2, s2)) = satisfy(d, &sat2, mall) {
+        if let Some((w2, s2)) = satisfy(out, d, &sat2, mall, &assets.wire()) {
             let leaf2 = leaf_of(leaves, &w2);
             judge(out, case, &sat2.tx, &sat2.prevout, &s2, &w2, false, &format!("{} {} locks", mode, assets.wire()), leaf2);
         }
@@ -479,6 +769,16 @@ fn do_case(out: &mut Out, rng: &mut Rng, case: &Case, leaves: &[Node], assets: &
         ("junk".into(), vec![0x30, 0x06, 0x02, 0x01, 0x01, 0x02, 0x01, 0x01, 0x01]), ("two".into(), vec![2]),
         ("zero1".into(), vec![0]),
     ];
+    // hash preimages of the wrong length / wrong value, and the right one of another hash
+    for h in 0..4u32 {
+        let pre = ast::preimage(h).to_vec();
+        if all.iter().any(|e| *e == pre) {
+            repl.push((format!("pre{}:short", h), pre[..31].to_vec()));
+            let mut l = pre.clone(); l.push(0); repl.push((format!("pre{}:long", h), l));
+            let mut w = pre.clone(); w[5] ^= 1; repl.push((format!("pre{}:wrong", h), w));
+            repl.push((format!("pre{}:other", h), ast::preimage((h + 1) % 4).to_vec()));
+        }
+    }
     let leaf_script: Option<Vec<u8>> = if tap && wit.len() >= 2 { Some(wit[wit.len() - 2].clone()) } else { None };
     for id in case.key_ids.iter().take(3) {
         if tap {
@@ -549,6 +849,7 @@ fn do_case(out: &mut Out, rng: &mut Rng, case: &Case, leaves: &[Node], assets: &
     // the interesting classes first, whatever the shuffle says
     muts.sort_by_key(|(name, _, _)| !(name.starts_with("append00") || name.starts_with("explicit00") || name.starts_with("srepl")) as u8);
     muts.truncate(n_mut);
+    let mut mut_no = 0usize;
     for (name, items, k) in muts {
         let k = k.min(items.len());
         // for pure-witness outputs all items belong to the witness
@@ -556,7 +857,9 @@ fn do_case(out: &mut Out, rng: &mut Rng, case: &Case, leaves: &[Node], assets: &
         let ss2 = ss_build(s_items);
         let w2: Vec<Vec<u8>> = w_items.to_vec();
         let leaf2 = leaf_of(leaves, &w2);
-        let acc = judge(out, case, &sat.tx, &sat.prevout, &ss2, &w2, false, &format!("{} {} mut:{}", mode, assets.wire(), name), leaf2);
+        mut_no += 1;
+        let acc = judge_x(out, case, &sat.tx, &sat.prevout, &ss2, &w2, false, &format!("{} {} mut:{}", mode, assets.wire(), name), leaf2,
+            if mut_no % 3 == 0 { X_ASSUME } else { 0 });
         if acc { out.count("c13 mutation accepted by interpreter"); }
     }
     // a non-minimal push in the scriptSig (same items)
@@ -594,7 +897,7 @@ pub fn run(out: &mut Out, thorough: bool, seed: u64) {
     let mut rng = Rng(seed ^ 0xC13);
     ast::emit_defs(out);
     // raw pkh of the uncompressed key used by the thorough atoms
-    out.line(&format!("D rawpkh 100 {}", hex(ast::raw_pkh(100).as_byte_array())), "ok");
+    for id in 100..104 { out.line(&format!("D rawpkh {} {}", id, hex(ast::raw_pkh(id).as_byte_array())), "ok"); }
     let n_mut = if thorough { 36 } else { 14 };
     let mut n_desc = 0u64;
     // a corpus of descriptors that exercise the interpreter's special arms
@@ -616,6 +919,12 @@ pub fn run(out: &mut Out, thorough: bool, seed: u64) {
         Node::AndB(k(0), Box::new(Node::Alt(Box::new(Node::NonZero(Box::new(Node::Multi(1, vec![1, 2]))))))),
         Node::OrB(k(0), Box::new(Node::Alt(Box::new(Node::DupIf(Box::new(Node::Verify(Box::new(Node::After(100))))))))),
         Node::Check(Box::new(Node::PkH(0))),
+        // all four hash-lock kinds, whatever the shared atoms of the tier contain
+        Node::AndV(Box::new(Node::Verify(k(0))), Box::new(Node::Hash(ast::HK::Sha256, 0))),
+        Node::AndV(Box::new(Node::Verify(k(0))), Box::new(Node::Hash(ast::HK::Hash256, 2))),
+        Node::AndV(Box::new(Node::Verify(k(0))), Box::new(Node::Hash(ast::HK::Ripemd160, 3))),
+        Node::AndV(Box::new(Node::Verify(k(0))), Box::new(Node::Hash(ast::HK::Hash160, 1))),
+        Node::OrD(k(0), Box::new(Node::AndB(Box::new(Node::Hash(ast::HK::Hash256, 2)), Box::new(Node::Alt(Box::new(Node::Hash(ast::HK::Ripemd160, 3))))))),
     ];
     for (ctx, wraps) in [(CtxK::Segwitv0, vec![Wrap::Wsh, Wrap::ShWsh]), (CtxK::Legacy, vec![Wrap::Sh]), (CtxK::Bare, vec![Wrap::Bare])] {
         let atoms = ast::default_atoms(ctx, !thorough);
@@ -633,7 +942,7 @@ pub fn run(out: &mut Out, thorough: bool, seed: u64) {
                         _ => ast::to_ms::<PublicKey, miniscript::BareCtx>(node).map(|m| m.validate(&<miniscript::BareCtx as miniscript::ScriptContext>::SANE).is_ok()).unwrap_or(false),
                     };
                     let hl = { let (mut a, mut o) = (vec![], vec![]); for n in [node] { n.locks(&mut a, &mut o); } (!a.is_empty(), !o.is_empty()) };
-                    let case = Case { desc: &d, node: Some(node), ctx, key_ids: key_ids(&[node], &[]), info: format!("{}", d), sane, has_after: hl.0, has_older: hl.1 };
+                    let case = Case { desc: &d, node: Some(node), ctx, key_ids: key_ids(&[node], &[]), info: format!("{}", d), sane, has_after: hl.0, has_older: hl.1, single_key: None };
                     for (ai, a) in dassets_subsets(&[node], if thorough { 8 } else { 3 }).into_iter().enumerate() {
                         let mut prev = None;
                         for mall in [false, true] { do_case(out, &mut rng, &case, &[], &a, mall, n_mut, &mut prev, ai == 0); }
@@ -648,7 +957,7 @@ pub fn run(out: &mut Out, thorough: bool, seed: u64) {
                 n_desc += 1;
                 let mut a = DAssets::default();
                 a.keys.insert(key % 100);
-                let case = Case { desc: &d, node: None, ctx: CtxK::Legacy, key_ids: key_ids(&[], &[key % 100]), info: format!("{}", d), sane: true, has_after: false, has_older: false };
+                let case = Case { desc: &d, node: None, ctx: CtxK::Legacy, key_ids: key_ids(&[], &[key % 100]), info: format!("{}", d), sane: true, has_after: false, has_older: false, single_key: Some(ast::full_key(key).to_bytes()) };
                 do_case(out, &mut rng, &case, &[], &a, false, n_mut * 2, &mut None, true);
             }
         }
@@ -667,13 +976,16 @@ pub fn run(out: &mut Out, thorough: bool, seed: u64) {
             Node::AndV(Box::new(Node::Verify(kt(0))), Box::new(Node::Older(10))),
             Node::Thresh(2, vec![*kt(0), Node::Swap(kt(1)), Node::Alt(Box::new(Node::Hash(ast::HK::Sha256, 0)))]),
             Node::Check(Box::new(Node::PkH(200))),
+            Node::AndV(Box::new(Node::Verify(kt(0))), Box::new(Node::Hash(ast::HK::Hash256, 2))),
+            Node::AndV(Box::new(Node::Verify(kt(0))), Box::new(Node::Hash(ast::HK::Ripemd160, 3))),
+            Node::AndV(Box::new(Node::Verify(kt(0))), Box::new(Node::Hash(ast::HK::Hash160, 1))),
         ];
         frags.extend(ast::enumerate(ctx, &atoms, if thorough { 3 } else { 2 }, if thorough { 30 } else { 8 }, &mut rng)
             .into_iter().filter(|t| t.base == Base::B).map(|t| t.node));
         if let Some(d) = desc::build_tr(3, &[]) {
             for sa in [false, true] {
                 let mut a = DAssets::default(); a.tapkey = true; a.schnorr_all = sa;
-                let case = Case { desc: &d, node: None, ctx, key_ids: vec![3, 7], info: format!("{}", d), sane: true, has_after: false, has_older: false };
+                let case = Case { desc: &d, node: None, ctx, key_ids: vec![3, 7], info: format!("{}", d), sane: true, has_after: false, has_older: false, single_key: None };
                 do_case(out, &mut rng, &case, &[], &a, false, n_mut * 2, &mut None, true);
             }
         }
@@ -690,7 +1002,7 @@ pub fn run(out: &mut Out, thorough: bool, seed: u64) {
                 let refs: Vec<&Node> = leaves.iter().collect();
                 let sane = leaves.iter().all(|l| ast::to_ms::<PublicKey, miniscript::Tap>(l).map(|m| m.validate(&<miniscript::Tap as miniscript::ScriptContext>::SANE).is_ok()).unwrap_or(false));
                 let hl = { let (mut a, mut o) = (vec![], vec![]); for n in leaves.iter() { n.locks(&mut a, &mut o); } (!a.is_empty(), !o.is_empty()) };
-                let case = Case { desc: &d, node: None, ctx, key_ids: key_ids(&refs, &[3]), info: format!("{}", d), sane, has_after: hl.0, has_older: hl.1 };
+                let case = Case { desc: &d, node: None, ctx, key_ids: key_ids(&refs, &[3]), info: format!("{}", d), sane, has_after: hl.0, has_older: hl.1, single_key: None };
                 for (ai, mut a) in dassets_subsets(&refs, if thorough { 4 } else { 2 }).into_iter().enumerate() {
                     a.tapkey = i % 7 == 0;
                     a.schnorr_all = i % 3 == 0;
@@ -700,6 +1012,8 @@ pub fn run(out: &mut Out, thorough: bool, seed: u64) {
             }
         }
     }
+    // ---- arbitrary shapes: nothing may panic
+    adversarial(out, &mut rng, if thorough { 30_000 } else { 3_000 });
     out.note("descriptors", n_desc.to_string());
     out.note("distinct_nontrivial", n_desc.to_string());
     out.note("domain", "corpus + all B-typed fragments to depth 2/3 (quota-thinned) in wsh / sh-wsh / sh / bare, pkh / wpkh / sh-wpkh, tr key path and tr script path (single leaves and random trees) x asset subsets x {nonmall, mall} x (base tx; re-signed variants of version / nLockTime / nSequence around every lock; mutations of scriptSig and witness: drop, duplicate, swap, replace by empty / 1 / 2 / 0x00 / 32 zero bytes / junk DER / other keys' and other sighash types' valid signatures, flipped sighash byte, flipped bit, 0x00 / 0x01 appended to Schnorr signatures, annex, extra element, non-minimal push)".into());
